@@ -3,7 +3,7 @@ import os
 import re
 import subprocess
 
-from vlib import cligen, core, pkgrun, sexp
+from vlib import cligen, clileg, core, pkgrun, sexp
 
 PROP = "C18"
 LEAN_MODULES = ["ShootVerif.Props.C18"]
@@ -264,15 +264,35 @@ def run_histories(ctx, cases):
     return dict(zip([c["id"] for c in cases], core.pmap(one, cases)))
 
 
+def glob_cases(ctx, start):
+    """the [dir] argument holds an unclosed `[` above the module root: Clean's glob pattern is malformed (finding F_glob_dir)"""
+    out = []
+    for i, cmd in enumerate([cligen.CMDS[ctx.seed % 4]] if ctx.quick() else cligen.CMDS):
+        c = cligen.c18_case("g%d" % (start + i), cligen.BASES[cmd](), [cmd] + cligen.BASES[cmd]()["flags"] + ["-type=*", "<ABS>/w[/mod/<pkg>"],
+                            "cleanGlobBad", outs=["x"], stale=["earlier-outputs"], tags=["[dir] holds an unclosed ["])
+        c["globdir"] = cmd
+        out.append(c)
+    return out
+
+
+def run_glob(ctx, cases):
+    out = {}
+    for c in cases:
+        r = clileg.glob_dir_scenario(ctx, c["globdir"], "bad")
+        out[c["id"]] = {"runs": [{"rc": r["rc"], "stdout": "", "stderr": r["stderr"], "args": r["args"]}], "written": r["written"], "deleted": r["deleted"]}
+    return out
+
+
 def run_cases(ctx, cases):
     b = pkgrun.Batch(ctx, "c18")
     for c in cases:
-        if "history" not in c:
+        if "history" not in c and "globdir" not in c:
             b.add(c)
     out = b.execute(build=False)
     hs = [c for c in cases if "history" in c]
     if hs:
         out.update(run_histories(ctx, hs))
+    out.update(run_glob(ctx, [c for c in cases if "globdir" in c]))
     impl = {}
     for c in cases:
         im, site = observe(out[c["id"]])
@@ -299,6 +319,7 @@ def run(ctx, obl):
     cases, npred = cligen.damage_cases(ctx.rng, quick=ctx.quick())
     cases += random_cases(ctx, len(cases))
     cases += history_cases(ctx, len(cases))
+    cases += glob_cases(ctx, len(cases))
     impl, model = run_cases(ctx, cases)
     for c in cases:
         for t in c["tags"]:
